@@ -35,7 +35,7 @@ ALPHA = {
     'let_compose': 2, 'add_expr': 2, 'to_expr': 1, 'queries': 1,
     'traverse': 4, 'copy_handle': 3, 'drop': 10, 'gc': 5, 'sift': 3,
     'reorder_to': 3, 'reorder_pairs': 1, 'declare': 1, 'find_or_add': 1,
-    'configure': 1,
+    'configure': 1, 'xcopy': 2, 'peer': 1, 'views': 1,
     # a few rejected calls (e.g. a load that fails half-way): afterwards
     # every count must still be in-edges + live handles
     'bad': (3, [49, 65535, 65535]),
